@@ -1,3 +1,5 @@
+//go:debug randseednop=0
+
 // Package execsim: one chain, many replicas. The harness builds a chain of
 // blocks from a generated transaction stream (it holds the validator keys and
 // signs the commits); R real full nodes (Angine + EVM application over
@@ -15,6 +17,7 @@ import (
 	"encoding/json"
 	"fmt"
 	"math/big"
+	mrand "math/rand"
 	"os"
 	"runtime"
 	"sort"
@@ -57,6 +60,8 @@ var runtimes = [][]byte{
 	common.Hex2Bytes("60005460010160005500"),               // slot0++
 }
 
+func jsonMarshal(v interface{}) ([]byte, error) { return json.Marshal(v) }
+
 func initCode(rt []byte) []byte {
 	// PUSHn <runtime> PUSH1 0 MSTORE PUSH1 n PUSH1 32-n RETURN
 	n := len(rt)
@@ -85,6 +90,9 @@ func generate(seed uint64, prop string) simrt.Case {
 	ntx := 0
 	if prop == "C19" {
 		return generatePool(r, cfg)
+	}
+	if prop == "C12" || prop == "C01" {
+		return generateNet(r, cfg)
 	}
 	for b := 0; b < nblocks; b++ {
 		// replica histories before this block
@@ -546,6 +554,7 @@ func execute(t *testing.T, prop string, c simrt.Case) (out simrt.Outcome) {
 func run(t *testing.T, prop string, c simrt.Case, out *simrt.Outcome, lg *simrt.Log) {
 	var cfg config
 	json.Unmarshal(c.Config, &cfg)
+	mrand.Seed(int64(cfg.Seed)) // the repository draws from the global math/rand source (gossip picks, pex)
 	w := &world{t: t, cfg: cfg, out: out, lg: lg, reg: simrt.NewRegistry(), prop: prop, nonces: map[common.Address]uint64{}, kvRef: map[string][]string{}}
 	simhook.GoHook = w.reg.Go
 	fullnode.AdminReg = w.reg
@@ -574,6 +583,10 @@ func run(t *testing.T, prop string, c simrt.Case, out *simrt.Outcome, lg *simrt.
 			panic(err)
 		}
 		w.accts = append(w.accts, &account{k, ethcrypto.PubkeyToAddress(k.PublicKey)})
+	}
+	if prop == "C12" || prop == "C01" {
+		w.runNet(c)
+		return
 	}
 	for i := 0; i < cfg.Replicas; i++ {
 		key := crypto.GenPrivKeyEd25519FromSecret([]byte(fmt.Sprintf("execsim-rep-%d-%d", cfg.Seed, i)))
@@ -736,7 +749,7 @@ func run(t *testing.T, prop string, c simrt.Case, out *simrt.Outcome, lg *simrt.
 		}
 		if w.pm != nil {
 			w.poolAfterBlock(txs)
-			w.poolReap(-1, "after-block")
+			w.poolReap(reapAll, "after-block")
 			if len(out.Violations) > 0 {
 				return
 			}
